@@ -1290,6 +1290,9 @@ class S2Init(Unit):
 
 
 UNITS = [Gyration(), S2Integral(), Nematic(), Tetrahedral(), ParticleS2(), S2Init()]
+# callee contracts of other properties used at call sites: their units are re-verified with this check
+from contracts.common import callee_units as _callee_units   # noqa: E402
+UNITS = UNITS + _callee_units([('C02', None), ('C05', {'read_neighbors'}), ('C16', {'spatial_average'})], UNITS)
 
 HELPERS = [("PyMatterSim.utils.funcs", "grid_gaussian"), ("PyMatterSim.utils.funcs", "kronecker")]
 
